@@ -1,5 +1,5 @@
 (* Rigid motions and the exchange map (C02), at T := R. *)
-From Coq Require Import Nsatz.
+From Coq Require Import Nsatz FinFun.
 From GM Require Import Proofs.RTac Model.Aux Proofs.AuxR Model.ExchangeMap Proofs.ExchangeMapL Proofs.ExchangeMapR.
 Import ListNotations.
 Local Open Scope R_scope.
